@@ -29,6 +29,10 @@ type UpdCase struct {
 	// Twin: name of a second file below rules/ that also matches the rule's prefix (a stale copy): the rules
 	// file is ambiguous, update must fail and write nothing
 	Twin string `json:"twin,omitempty"`
+	// LongerID: a rule whose id is the target's id plus one digit stands in front of the target rule
+	LongerID bool `json:"longer_id,omitempty"`
+	// FileLink: the target's assembly file is a symbolic link to a file kept elsewhere (a shared word list)
+	FileLink bool `json:"file_link,omitempty"`
 	// AsmLink: regex-assembly is a symbolic link to a directory elsewhere (a shared checkout of the assembly files)
 	AsmLink bool `json:"asm_link,omitempty"`
 }
@@ -99,6 +103,23 @@ func genUpdCase(t *rapid.T, withEdit bool) UpdCase {
 	if rf.TrailBlank > 0 {
 		lab["blank-lines-at-end-of-file"] = true
 	}
+	if rapid.IntRange(0, 5).Draw(t, "longerid") == 0 {
+		// 9321001 in front of 932100: ids are compared as whole numbers, not as prefixes
+		longer := crsgen.Rule{ID: c.ID + "1", Links: []crsgen.Link{{Vars: "ARGS", Op: "@rx", Operand: "longer-id"}, {Vars: "ARGS", Op: "@rx", Operand: "longer-id-chained"}}}
+		pos := 0
+		for i, r := range rf.Rules {
+			if r.ID == c.ID {
+				pos = i
+			}
+		}
+		rf.Rules = append(rf.Rules[:pos], append([]crsgen.Rule{longer}, rf.Rules[pos:]...)...)
+		c.LongerID = true
+		lab["rule-with-longer-id-in-front"] = true
+	}
+	if rapid.IntRange(0, 7).Draw(t, "filelink") == 0 {
+		c.FileLink = true
+		lab["assembly-file-is-a-symbolic-link"] = true
+	}
 	if rapid.IntRange(0, 9).Draw(t, "asmlink") == 0 {
 		c.AsmLink = true
 		lab["regex-assembly-is-a-symbolic-link"] = true
@@ -159,6 +180,13 @@ func setupUpd(c UpdCase) *updEnv {
 	// a second, unrelated assembly file whose rule is in sync and which sorts after every 932 target
 	tree["regex-assembly/933100.ra"] = "insync\n"
 	// assembly files that are not named like a rule and sort before every target: --all passes them by
+	if c.FileLink {
+		tree["regex-assembly/shared-lists/"+c.Arg()+".txt"] = c.Prog.MainText()
+		tree["regex-assembly/"+c.Arg()+".ra"] = cli.SymlinkPrefix + "shared-lists/" + c.Arg() + ".txt"
+	}
+	// copies named like the target in other sub-directories: only the assembly directory itself holds rule files
+	tree["regex-assembly/drafts/"+c.Arg()+".ra"] = "draft copy of the target\n"
+	tree["regex-assembly/old/archive/"+c.ID+".ra"] = "archived copy\n"
 	tree["regex-assembly/0-scratch.ra"] = "scratch\n"
 	tree["regex-assembly/000000-wip.ra"] = "work in progress\n"
 	tree["rules/REQUEST-933-APPLICATION-ATTACK-PHP.conf"] = "SecRule ARGS \"@rx insync\" \\\n    \"id:933100,\\\n    phase:2\"\n"
